@@ -14,6 +14,27 @@ ROOT = os.path.dirname(os.path.dirname(os.path.abspath(__file__)))
 KANI_TARGET = os.environ.get("VERIF_KANI_TARGET", os.path.join(ROOT, ".cache", "kani"))
 
 
+def kani_target_for(repo):
+    """/repo uses the shared cache.  Any OTHER tree (mutation / seeded-change runs) gets a target dir of its
+    own: cargo's fingerprints are keyed workspace-relative, so a second tree sharing the target dir can be
+    judged 'fresh' and silently verified with /repo's artifacts (observed).  The private dir is seeded with
+    the dependency artifacts of the shared cache; everything of rustic_core is removed so it is rebuilt."""
+    import hashlib
+    import shutil
+    real = os.path.realpath(repo)
+    if real == "/repo":
+        return KANI_TARGET
+    alt = "/scratch/kani-target-" + hashlib.sha1(real.encode()).hexdigest()[:8]
+    if not os.path.isdir(alt):
+        os.makedirs("/scratch", exist_ok=True)
+        if os.path.isdir(KANI_TARGET):
+            subprocess.run(["cp", "-a", KANI_TARGET, alt])
+            subprocess.run("find %s -depth \\( -name 'rustic_core*' -o -name 'librustic_core*' \\) -exec rm -rf {} +" % alt, shell=True)
+        else:
+            os.makedirs(alt)
+    return alt
+
+
 @dataclass
 class Harness:
     name: str                      # full harness path, e.g. backend::hotcold::verif_kani::c16_write_bytes
@@ -43,6 +64,8 @@ class KaniOutcome:
         self.coverage = {}
         self.samples = []
         self.bounded = []
+        self.bounded_checks_total = 0
+        self.bounded_checks_ok = 0
 
 
 def _run(cmd, cwd, timeout, env):
@@ -118,7 +141,7 @@ def analyse_block(text):
     return res
 
 
-def run_kani_engine(prop, spec, tier):
+def run_kani_engine(prop, spec, tier, known=()):
     ko = KaniOutcome()
     harnesses = [h for h in spec.KANI if tier == "thorough" or h.tier == "quick"]
     ko.n_total = len(harnesses)
@@ -126,7 +149,8 @@ def run_kani_engine(prop, spec, tier):
         return ko
     env = dict(os.environ)
     env["CARGO_NET_OFFLINE"] = "true"
-    env["CARGO_TARGET_DIR"] = KANI_TARGET
+    target = kani_target_for(extract.REPO)
+    env["CARGO_TARGET_DIR"] = target
     default_unwind = getattr(spec, "KANI_UNWIND", 2)
     pkg = getattr(spec, "KANI_PACKAGE", "rustic_core")
     base = ["cargo", "kani", "-p", pkg, "-Z", "function-contracts", "-Z", "stubbing", "-Z", "unstable-options"]
@@ -162,7 +186,7 @@ def run_kani_engine(prop, spec, tier):
                 ko.undecided.append("kani: no result for harness %s (renamed or not compiled?)" % h.name)
                 continue
             per_h[h.name] = (h, analyse_block(blk), blk)
-    ko.cmd = " ;; ".join("cd %s && CARGO_TARGET_DIR=%s %s" % (extract.REPO, KANI_TARGET, c) for c in cmds)
+    ko.cmd = " ;; ".join("cd %s && CARGO_TARGET_DIR=%s %s" % (extract.REPO, target, c) for c in cmds)
     bdir = os.path.join(os.environ.get("VERIF_OUT", ROOT), "build", prop)
     os.makedirs(bdir, exist_ok=True)
     open(os.path.join(bdir, "kani.log"), "w").write("\n".join(allout)[-3_000_000:])
@@ -180,8 +204,13 @@ def run_kani_engine(prop, spec, tier):
         if r["status"] is None:
             ko.undecided.append("kani: harness %s produced no verdict (timeout / out of memory / crash)" % name)
             continue
-        ko.checks_total += r["checks_total"]
-        ko.checks_ok += r["checks_total"] - r["checks_failed"]
+        if h.kind == "bounded":
+            # bounded stand-ins are reported, but never counted as discharged proof obligations
+            ko.bounded_checks_total += r["checks_total"]
+            ko.bounded_checks_ok += r["checks_total"] - r["checks_failed"]
+        else:
+            ko.checks_total += r["checks_total"]
+            ko.checks_ok += r["checks_total"] - r["checks_failed"]
         if r["status"] == "SUCCESSFUL":
             # vacuity: all cover statements must be satisfied
             if r["covers_total"] != r["covers_sat"] or (h.covers and r["covers_total"] < h.covers):
@@ -196,7 +225,9 @@ def run_kani_engine(prop, spec, tier):
                 ko.undecided.append("kani: harness %s: unwinding assertion failed (bound too small for this tree) -- not a verdict" % name)
                 continue
             # ask CBMC for concrete values of this failing harness (one extra run, only on failure)
-            if r["playback"] is None:
+            obs = ["%s.kani.%s.%s" % (prop, name.split("::")[-1], re.sub(r"[^A-Za-z0-9]+", "_", c["description"]).strip("_")[:90]) for c in fcs]
+            all_known = obs and all(o in known for o in obs)
+            if r["playback"] is None and not all_known:
                 pcmd = base + ["-Z", "concrete-playback", "--concrete-playback=print", "--default-unwind",
                                str(h.unwind if h.unwind is not None else default_unwind), "--output-format", "regular", "--harness", name] + list(h.extra)
                 prc, pout, _ = _run(pcmd, extract.REPO, h.timeout + 600, env)
